@@ -51,8 +51,8 @@ def short_names(n):
     return out
 
 
-LINEBREAKS = set("\n\r\x0b\x0c\x1c\x1d\x1e\x85\u2028\u2029")
-POOLS = ["abc xyz 0189 .,;", " \u00a0\u2009\u3000\u202f  a", "\\{}$&#^_~%", "éàüñçÅøßšžőűęą", "éäôűçñ", "… ½²ﬁ™ǆ", "漢字かな한글", "😀🎉👍🏽", "̣̱֑̀́ͅ", "ÅΩKﬃ", "ǖṩệở"]
+LINEBREAKS = set("\n")      # the document reader of the harness is line-oriented on "\n" only; every other separator character may occur in a label
+POOLS = ["abc xyz 0189 .,;", " \u00a0\u2009\u3000\u202f  a", "a \r\x0b\x0c\x1c\x1e\x85\u2028\u2029 b", "\\{}$&#^_~%", "éàüñçÅøßšžőűęą", "éäôűçñ", "… ½²ﬁ™ǆ", "漢字かな한글", "😀🎉👍🏽", "̣̱֑̀́ͅ", "ÅΩKﬃ", "ǖṩệở"]
 
 
 def run_c19(tier, seed, rep, only_prop=False, scale=1):
